@@ -159,7 +159,7 @@ def fold_hooks(I):
         key = ("e", ename, xt.get_id())
         if key not in seen:
             seen.add(key)
-            if ename in ("bad", "zc"):
+            if ename in ("bad", "zc", "foldable"):
                 ctx.assume(z3.And(t >= 0, t <= 1))
             if ename == "tsz":
                 ctx.assume(t >= 1)
@@ -189,7 +189,7 @@ def fold_hooks(I):
             seen.add(key)
             ctx.assume(z3.Implies(z3.Length(sq) == 0, t == 0))
             ctx.assume(z3.Implies(z3.Length(sq) == 1, t == elem_term(ename, sq[0])))
-            if fname in ("fcnt", "fsz", "fz"):
+            if fname in ("fcnt", "fsz", "fz", "ffold"):
                 ctx.assume(t >= 0)
         return t
 
@@ -247,6 +247,9 @@ def fold_hooks(I):
             I.pcs.append(ctx_fact)
         return Conc(zero) if isinstance(zero, bool) else __import__("pyvc.values", fromlist=["SymBool"]).SymBool(zero)
     I.contracts[id(p.is_zero)] = is_zero_contract
+
+    I.fold_term = fold_term
+    I.extra_fold_pairs = pairs
 
     def on_split(I, old_t, el, rest, first):
         for elem, fold in pairs:
@@ -329,3 +332,118 @@ def make_flatten_contract(fname, cls_name, mode):
 FLATTENED_SUM = make_flatten_contract("flattened_sum", "Sum", "sum")
 FLATTENED_PRODUCT = make_flatten_contract("flattened_product", "Product", "product")
 LOOP_FUNCTIONS = [FLATTENED_SUM, FLATTENED_PRODUCT]
+
+
+# ----------------------------------------------------------------------------- ConstantFoldingMapperBase.fold
+# Same abstract monoid.  self.rec, self.is_constant, self.evaluate are arbitrary callables obeying their contracts:
+#   rec(x)         returns a term with the value of x                           (induction hypothesis)
+#   is_constant(x) an arbitrary boolean
+#   evaluate(x)    returns None or a number with the value of x
+# op (operator.add / operator.mul) over the collected constants is the monoid operation: reduce(op, cs) denotes fold(cs);
+# the constructor (flattened_sum / flattened_product) is used through the contract proved above.  Partial correctness:
+# termination depends on rec and is not claimed.  'foldable(x)' = is_constant(x) and evaluate(x) is not None.
+def foldable(x):
+    raise NotImplementedError("ghost")
+
+
+def ffold(s):
+    raise NotImplementedError("ghost")
+
+
+def fold_setup(cls_name):
+    def st(I, inputs):
+        import functools
+        import operator
+        import z3
+        from pyvc import smt
+        from pyvc.smt import S, V, Int, Bool, fn
+        from pyvc.values import Conc, NativeHandler, SymBool, SymInt, SymV, SymSeq, PyTuple
+        import pymbolic.mapper.constant_folder as cf
+        I.flatten_mode = "sum"          # additive reading of the abstract monoid for both instances
+        fold_hooks(I)
+        selfv = inputs[0]
+        iv = fn("ival", V, Int)
+        R = fn("Rfold", V, V)
+        ISC = fn("is_const", V, Bool)
+        EV = fn("evaluated", V, V)
+        fo = fn("foldable", V, Int)
+        ffo = fn("ffold", S, Int)
+
+        def rec(I, self_obj, args, kwargs, star, dstar, node):
+            t = R(I.lift(args[0]))
+            I.pcs.append(iv(t) == iv(I.lift(args[0])))
+            return SymV(t)
+        selfv.rec_contract = NativeHandler(rec)
+
+        def is_constant(I, args, kwargs, star, dstar, node):
+            x = I.lift(args[-1])
+            I.pcs.append(z3.Implies(z3.Not(ISC(x)), fo(x) == 0))       # definition of 'foldable'
+            return SymBool(ISC(x))
+        I.contracts[id(cf.ConstantFoldingMapperBase.is_constant)] = is_constant
+
+        def evaluate(I, args, kwargs, star, dstar, node):
+            x = I.lift(args[-1])
+            t = EV(x)
+            none = t == I.lift(Conc(None))
+            I.pcs.append(z3.Implies(z3.Not(none), iv(t) == iv(x)))
+            I.pcs.append(fo(x) == z3.If(z3.And(ISC(x), z3.Not(none)), 1, 0))
+            return SymV(t)
+        I.contracts[id(cf.ConstantFoldingMapperBase.evaluate)] = evaluate
+
+        def foldable_h(I, args, kwargs, star, dstar, node):
+            x = I.lift(args[0])
+            I.ctx.assume(z3.And(fo(x) >= 0, fo(x) <= 1))
+            return SymInt(fo(x))
+        I.contracts[id(foldable)] = foldable_h
+        # the fold 'ffold' over 'foldable' joins the quantifier-free fold machinery
+        I.extra_fold_pairs.append(("foldable", "ffold"))
+        I.contracts[id(ffold)] = lambda I, args, kwargs, star, dstar, node: SymInt(I.fold_term("foldable", "ffold", I.as_seq(args[0])))
+
+        def reduce_h(I, args, kwargs, star, dstar, node):
+            # reduce(op, constants) for a non-empty list: a number denoting the monoid fold of the list
+            sq = I.as_seq(args[1])
+            r = z3.Const(I.fresh_name(node, "reduced"), V)
+            I.pcs.append(iv(r) == I.fold_term("ival", "fsum", sq))
+            I.pcs.append(smt.tag(r) != smt.TAG_NODE)
+            return SymV(r)
+        I.builtin_handlers[functools.reduce] = reduce_h
+
+        def constructor(I, args, kwargs, star, dstar, node):
+            # contract of flattened_sum / flattened_product (C11.flattened_*): value = fold of the terms
+            sq = I.as_seq(args[0])
+            r = z3.Const(I.fresh_name(node, "constructed"), V)
+            I.pcs.append(iv(r) == I.fold_term("ival", "fsum", sq))
+            I.constructed_from = sq
+            return SymV(r)
+        I.contracts[id(p.flattened_sum)] = constructor
+        I.contracts[id(p.flattened_product)] = constructor
+    return st
+
+
+def fold_inv(v):
+    return fsum(v.constants) + fsum(v.nonconstants) + fsum(v.queue) == fsum(v.old_expr.children) and ffold(v.nonconstants) == 0
+
+
+def fold_upd(v):
+    if isinstance(v.child, v.klass):
+        assume(ival(v.child) == fsum(v.child.children))     # an n-ary node denotes the fold over its children
+    return {}
+
+
+def fold_post(self, expr, klass, op, constructor, result):
+    return ival(result) == fsum(expr.children)
+
+
+def make_fold_contract(cls_name):
+    ctor = "flattened_sum" if cls_name == "Sum" else "flattened_product"
+    opn = "add" if cls_name == "Sum" else "mul"
+    fc = FunctionContract(f"C11.ConstantFoldingMapperBase.fold[{cls_name}]", "pymbolic.mapper.constant_folder:ConstantFoldingMapperBase.fold",
+                          [("self", "obj:pymbolic.mapper.constant_folder:ConstantFoldingMapper"), ("expr", f"node:{cls_name}"),
+                           ("klass", f"const:__import__('pymbolic').primitives.{cls_name}"), ("op", f"const:__import__('operator').{opn}"),
+                           ("constructor", f"const:__import__('pymbolic').primitives.{ctor}")],
+                          ensures=[("value-preserved", fold_post)], loops={0: Loop(fold_inv, None, ghost_update=fold_upd)}, setup=fold_setup(cls_name), property_id="C11")
+    fc.allowed_exc = (ValueError,)
+    return fc
+
+
+FOLD_FUNCTIONS = [make_fold_contract("Sum"), make_fold_contract("Product")]
